@@ -163,10 +163,11 @@ def worker(chunk, seed, tier):
             # time of the unmodified load sets the watchdog
             with open(path, "w") as fh:
                 fh.write(text)
-            t0 = time.time()
+            t0 = time.process_time()
             base_info = {"file": fname, "origin": origin_kind, "fault": "none"}
-            judge(part, "load_one", fmtname, path, fmt, "none", base_info, 120)
-            limit = max(20, int(30 * (time.time() - t0)) + 1)
+            judge(part, "load_one", fmtname, path, fmt, "none", base_info, 300)
+            limit = max(20, int(30 * (time.process_time() - t0)) + 1)  # CPU seconds
+            ntimeout = 0
             if group == "truncate-lines":
                 muts = fe.line_truncations(text)
             elif group == "truncate-bytes":
@@ -190,6 +191,11 @@ def worker(chunk, seed, tier):
                 kl = key[0]
                 lab = judge(part, "load_one", fmtname, path, fmt, kl, info, limit)
                 part.nontrivial((fname, group, lab))
+                if lab == "timeout":
+                    ntimeout += 1
+                    if ntimeout >= 3:
+                        part.cov["jobs_stopped_after_3_timeouts"] = part.cov.get("jobs_stopped_after_3_timeouts", 0) + 1
+                        break
                 if has_many:
                     judge(part, "load_many", fmtname, path, fmt, kl, info, limit)
                     if kl.startswith("truncate") and nmut % 7 == 0:
@@ -360,7 +366,7 @@ def run(ctx):
         "available, load_many (exhausted; every 7th truncation also abandoned after the first frame). Non-trivial/distinct = (file, fault group, outcome class)."
     )
     ctx.assumptions += ["generated files are written by iodata's own writers from the default C02 objects (they only serve as well-formed seeds to mutate)",
-                        "watchdog = max(20 s, 30 x the time of the unmodified load); a timeout is reported as non-termination",
+                        "watchdog = max(20 s, 30 x the time of the unmodified load) of CPU time (ITIMER_PROF); a timeout is reported as non-termination; a job stops after 3 timeouts",
                         "iodata.api.LineIterator is replaced from outside by a recording subclass to observe line numbers and handle closure"]
 
 
